@@ -130,7 +130,7 @@ def assemble(unit, meta, extra_lemmas=None):
         emit(prelude.generate_mx())
     if unit == "F64":
         emit(prelude.generate_fp())
-    if unit != "F64" and unit != "Derivative" and "__" not in unit:
+    if unit != "F64" and unit != "Derivative":
         emit(prelude.generate_fmt(unit in VECTOR_UNITS))
     if unit in VECTOR_UNITS:
         emit("\n// ===== Derivative: contracts only (external_body stubs); the bodies are verified in unit Derivative =====\n")
